@@ -43,6 +43,7 @@ type Case struct {
 	TSARev    string     `json:"tsaRev"` // ok revoked unknown error
 	TSAction  string     `json:"tsAction"`
 	EdgeLabel string     `json:"edge"`
+	Warm      string     `json:"warm,omitempty"` // earlier verification on the same verifier: "", plain, token, expired
 }
 
 var (
@@ -209,6 +210,19 @@ func check(c Case) (string, string, verdicts) {
 	if err != nil {
 		return "harness", "verifier construction: " + err.Error(), want
 	}
+	if c.Warm != "" {
+		ws := envb.Spec{Format: c.Format, Payload: spec.Payload, ContentType: envb.PayloadType, Scheme: scheme, SigningTime: at(c.SignTime - 60), Chain: ch.X509(), Key: ch.Leaf().Key}
+		switch c.Warm {
+		case "token":
+			mid := (c.Windows[0][0] + c.Windows[0][1]) / 2
+			ws.Timestamp = func(sig []byte) []byte {
+				return tsaGood.Token(pki.TokenSpec{Message: sig, Hash: crypto.SHA256, GenTime: at(mid), Accuracy: 1})
+			}
+		case "expired":
+			ws.Expiry = at(c.SignTime - 30)
+		}
+		v.Verify(context.Background(), desc, envb.Build(ws), notation.VerifierVerifyOptions{ArtifactReference: kit.Reference(desc), SignatureMediaType: c.Format})
+	}
 	out, verr := v.Verify(context.Background(), desc, env, notation.VerifierVerifyOptions{ArtifactReference: kit.Reference(desc), SignatureMediaType: c.Format})
 	if out == nil {
 		return "C06:nil-outcome", fmt.Sprintf("nil outcome err=%v", verr), want
@@ -291,6 +305,9 @@ func classes(c Case, v verdicts) []string {
 	}
 	if c.EdgeLabel != "" {
 		cl = append(cl, "edge="+c.EdgeLabel)
+	}
+	if c.Warm != "" {
+		cl = append(cl, "reused-verifier")
 	}
 	return cl
 }
@@ -380,6 +397,7 @@ func drawCase(rt *rapid.T) Case {
 	if c.Scheme == "x509" && !c.TSAStore {
 		c.GenTime, c.Accuracy = 0, 0
 	}
+	c.Warm = rp.Pick(rt, "warm", "", "", "", "plain", "token", "expired")
 	return c
 }
 
